@@ -19,6 +19,8 @@ def to_pl(v):
         return None
     k = next(iter(v))
     x = v[k]
+    if k == "nan":
+        return float("nan")
     if k == "ts":
         return T0 + dt.timedelta(days=int(x["n"]))
     return A.to_py(v)
@@ -113,11 +115,14 @@ def column_of(spec, **extra):
         required=spec["required"], name=name, regex=spec["regex"] is not None, **extra)
 
 
-def schema_of(S, **extra):
+def schema_of(S, with_defaults=False, **extra):
     import pandera.polars as pap
     cols = {}
     for spec in S["columns"]:
-        n, c = column_of(spec)
+        kw = {}
+        if with_defaults and spec.get("default") is not None:
+            kw["default"] = to_pl(spec["default"])
+        n, c = column_of(spec, **kw)
         cols[n] = c
     strict = {"no": False, "yes": True, "filter": "filter"}[S["strict"]]
     return pap.DataFrameSchema(columns=cols, strict=strict, ordered=S["ordered"],
